@@ -119,15 +119,19 @@ def run_text(text):
     x = items[0]
     p = x.prim
     if p == 'bls12_381_fr':
-        v = x.to_micheline_value(mode='readable')
-        return ('ok', ('fr', int(v['int']), bytes.fromhex(x.to_micheline_value(mode='optimized')['bytes'])))
-    if p in ('bls12_381_g1', 'bls12_381_g2'):
-        return ('ok', (p[-2:], bytes(x.value)))
-    if p in ('int', 'nat'):
-        return ('ok', (p, int(x)))
-    if p == 'bool':
-        return ('ok', ('bool', bool(x)))
-    return ('other', f'unexpected result type {p}')
+        # an odd (e.g. non-canonical) element must become an observation that mismatches, never a harness exception
+        ok1, v = lib.call(lambda: int(x.to_micheline_value(mode='readable')['int']))
+        if not ok1:
+            ok1, v = lib.call(lambda: int(x.value))
+            if not ok1:
+                return ('other', f'Fr element cannot be read: {v!r}')
+        ok2, b = lib.call(lambda: bytes.fromhex(x.to_micheline_value(mode='optimized')['bytes']))
+        return ('ok', ('fr', v, b if ok2 else None))
+    ok3, out = lib.call(lambda: ((p[-2:], bytes(x.value)) if p in ('bls12_381_g1', 'bls12_381_g2') else
+                                 (p, int(x)) if p in ('int', 'nat') else ('bool', bool(x)) if p == 'bool' else None))
+    if ok3 and out is not None:
+        return ('ok', out)
+    return ('other', f'unexpected result {p}: {out!r}')
 
 
 def cB(b):
@@ -237,6 +241,17 @@ def run(ctx: lib.Ctx) -> None:
         z = lib.boundary_ints(rng) if rng.random() < 0.7 else rng.choice([0, 1, -1, R, -R, R - 1])
         t = 'nat' if z >= 0 and rng.random() < 0.5 else 'int'
         cases.append(('fr', 'MUL', [a, (t, z)] if rng.random() < 0.5 else [(t, z), a]))
+    # products and literals far below zero: results must be reduced into 0 <= x < r whatever the magnitude
+    big_fr = [1, 2, R - 1, R - 2, (R + 1) // 2, rng.randrange(R)]
+    neg_ints = [-1, -2, -3, -(R - 1), -R, -(R + 1), -(R + 7), -(2 * R - 1), -2 * R, -(2 * R + 1), -(3 * R - 1), -3 * R - 5, -(1 << 256), -(1 << 300) - 1]
+    for a in big_fr:
+        for z in (neg_ints if ctx.thorough else rng.sample(neg_ints, 6) + [-(R + 7), -2]):
+            o = [('fr_int', a), ('int', z)]
+            cases.append(('fr', 'MUL', o if rng.random() < 0.5 else o[::-1]))
+    for z in (-R - 1, -R - 7, -2 * R + 1, -2 * R - 1, -3 * R + 1, -3 * R - 1, -(1 << 256) - 3):
+        cases.append(('fr', 'INT', [('fr_int', z)]))
+        cases.append(('fr', 'NEG', [('fr_int', z)]))
+        cases.append(('fr', 'ADD', [('fr_int', z), ('fr_int', 1)]))
     for n in (0, 1, 31, 32, 33, 40):
         body = bytes(rng.getrandbits(8) for _ in range(n))
         cases.append(('fr', 'INT', [('fr_bytes', body)]))
@@ -366,9 +381,9 @@ def run(ctx: lib.Ctx) -> None:
             if got != want:
                 violate(f'{op} on {kind}: result is not the group/field operation',
                         {'program': text, 'observed': repr(got)[:500], 'expected': repr(want)[:500], 'repro': repro(text)})
-            if obs[0] == 'ok' and obs[1][0] == 'fr' and obs[1][2] != obs[1][1].to_bytes(32, 'little'):
+            if obs[0] == 'ok' and obs[1][0] == 'fr' and (obs[1][2] is None or not 0 <= obs[1][1] < R or obs[1][2] != obs[1][1].to_bytes(32, 'little')):
                 violate('optimized form of an Fr value is not its 32-byte little-endian encoding',
-                        {'program': text, 'observed': obs[1][2].hex(), 'repro': repro(text)})
+                        {'program': text, 'observed': obs[1][2].hex() if obs[1][2] is not None else f'no 32-byte form (value {obs[1][1]})', 'repro': repro(text)})
 
     # ---- (B) laws on the interpreter's own outputs
     def ev(text):
@@ -451,7 +466,7 @@ def run(ctx: lib.Ctx) -> None:
     ctx.extra['lenient_acceptances'] = {'cases': len(lenient_cases), 'differ_from_model': len(lbad),
                                         'note': 'INT on g1/g2 values: outside the reference typing, not part of the verdict'}
     # Fr codec: to_bytes(32, little) of every Fr result, evaluated by the model
-    frs = sorted({m[4][1][1:] for m in meta if m[4][0] == 'ok' and m[4][1][0] == 'fr'})
+    frs = sorted({m[4][1][1:] for m in meta if m[4][0] == 'ok' and m[4][1][0] == 'fr' and m[4][1][2] is not None and m[4][1][1] >= 0})
     codec_cases = [(cZ(z), f'(Ok {cB(b)})') for z, b in frs]
     bad2 = ctx.coq_mismatches('frcodec', IMPORTS, 'fr_to_bytes', 'result_eqb bytes_eqb', 'Z', 'result bytes', codec_cases,
                               prelude='Definition B (n : nat) (z : Z) : bytes := be_digits n z.\n')
